@@ -57,6 +57,10 @@ func main() {
 		workerMain(*worker)
 		return
 	}
+	if os.Getenv("VCHECK_C06_CHILD") != "" {
+		c06ChildMain()
+		return
+	}
 	if d := os.Getenv("VCHECK_C11_CHILD"); d != "" {
 		c11ChildMain(d)
 		return
